@@ -451,6 +451,24 @@ Proof.
     apply (read_line_at_eof RInv up_r RInv_pos RInv_end RInv_setpos up_r_setpos RInv_shift); assumption.
 Qed.
 
+(* any reader that delivers the plain bytes in some chunking (decompressors) *)
+Theorem stream_reader_records cap plain chunking d cr :
+  1 <= cap -> no_err chunking = true ->
+  exists sf, read_all d cr (fp_open_stream cap plain chunking) = (Ok (records d cr plain), sf) /\
+    (forall d' cr', read_line d' cr' sf = (RlEOF, sf)).
+Proof.
+  intros Hc Hne. set (s := fp_open_stream cap plain chunking).
+  assert (HI : RInv s).
+  { unfold RInv, s, fp_open_stream. simpl. repeat split; auto; try lia; try discriminate. }
+  destruct (read_all_loop_spec RInv up_r RInv_pos RInv_end RInv_setpos up_r_setpos RInv_shift RInv_fuel
+              (pending s + length (fp_buf s) + 2) d cr s HI) as (sf & Ea & HIf & Hrf & Hef).
+  { unfold rest, window, pending, up_r, s, fp_open_stream. simpl. lia. }
+  exists sf. split.
+  - unfold read_all. rewrite Ea. reflexivity.
+  - intros d' cr'. unfold read_line, line_fuel. rewrite Nat.add_succ_r.
+    apply (read_line_at_eof RInv up_r RInv_pos RInv_end RInv_setpos up_r_setpos RInv_shift); assumption.
+Qed.
+
 (* ------------------------------------------------------------------ the mmap back end *)
 (* segment [a, b) of the file *)
 Definition seg (X : list Z) (a b : nat) : list Z := firstn (b - a) (skipn a X).
